@@ -20,3 +20,14 @@ func (cc *Conn) VerifState() VerifState {
 	st.QueueLen = cc.receivedMessageReader.VerifQueueLen()
 	return st
 }
+
+// VerifAux returns table sizes of the layers attached to the connection: observation keys and
+// block-wise reassembly/send cache sizes (-1 when block-wise is off).
+func (cc *Conn) VerifAux() (observations []uint64, bwReceiving int, bwSending int) {
+	observations = cc.observationHandler.VerifKeys()
+	bwReceiving, bwSending = -1, -1
+	if cc.blockWise != nil {
+		bwReceiving, bwSending = cc.blockWise.VerifSizes()
+	}
+	return
+}
